@@ -326,6 +326,19 @@ impl<T: Clone + Into<Vec<u8>>> FindNodeContext<T> {
     pub fn verif_pending_responses(&self) -> usize {
         self.pending_responses
     }
+
+    /// Verification hook: let logical time pass — every pending request becomes `by` older.
+    /// Returns `false` if an instant could not be moved that far back.
+    pub fn verif_age_pending(&mut self, by: std::time::Duration) -> bool {
+        let mut ok = true;
+        for (_, instant) in self.pending.values_mut() {
+            match instant.checked_sub(by) {
+                Some(earlier) => *instant = earlier,
+                None => ok = false,
+            }
+        }
+        ok
+    }
 }
 
 #[cfg(test)]
